@@ -150,6 +150,32 @@ CLAIMED = {
    design_ref="DESIGN.md §5 C14",
    note="Trusted: Python-subset semantics and jnp models (repeat/tile/concatenate/reshape) of vf/pyvc.py, z3 non-linear integer "
         "arithmetic. Dimension 1..2 (rank / column count are concrete)."),
+ "C16": dict(
+   engine="pyvc",
+   text="The real RAR source is executed symbolically with every schedule integer, store size, candidate / selected size, step "
+        "count and iteration number as z3 integers: the constructor establishes ACTIVE(0) and the period counter, init_rar keeps "
+        "them, _proceed_to_rar fires iff i >= start /\\ counter == every-1 /\\ a full set fits (time and space), trigger_rar "
+        "dispatches on it, a non-firing step only bumps the counter after start, a firing step yields J+1, counter 0 and ACTIVE(J+1) "
+        "for time and space with their own n_start / nt_start (loop contracts proved by induction), also in 1-D; the SCHED "
+        "lemmas (steps exactly at start + k*every, nothing before start, none without capacity, never again afterwards) by z3.",
+   technique="contract-based deductive verification: source-level VC generation (ast symbolic executor, loop contracts as closed "
+             "forms proved by induction) discharged by z3; counter-models replayed on the real trigger_rar loop",
+   design_ref="DESIGN.md §5 C16",
+   note="Trusted: Python-subset semantics and jnp/lax models of vf/pyvc.py, the counting lemma for count_nonzero(p == 0), assumed "
+        "contracts of jax.random.uniform/split, the iteration rule, z3. Space dimension 1..2."),
+ "C17": dict(
+   engine="pyvc",
+   text="Firing step (same symbolic execution as C16, all sizes symbolic): stores are unchanged on the active prefix [0, n_start + "
+        "J*selected) and beyond the written slice (only inactive pre-allocated slots are overwritten, with time and space offsets "
+        "taken from their own initial counts); the written slice holds the candidates ranked highest by squared residual "
+        "(argsort tail for ODE / stationary; top max(sel_t, sel_x) space-time pairs, times from the first sel_t, space from the "
+        "first sel_x, for product domains); every candidate is drawn from the generator's own domain bounds.",
+   technique="contract-based deductive verification: source-level VC generation (ast symbolic executor) discharged by z3, with "
+             "assumed contracts for argsort / top_k / unravel_index / uniform",
+   design_ref="DESIGN.md §5 C17",
+   note="Trusted: as C16 plus the assumed contracts of jnp.argsort, jax.lax.top_k, jnp.unravel_index; the per-candidate residual is "
+        "an uninterpreted function of the candidate row. Reshuffles keep the active set by the assumed contract of "
+        "jax.random.choice (zero-probability rows last) — not re-proved."),
 }
 PENDING_REASON = "check not built yet (framework under construction); will be claimed once its contracts verify"
 NA = {}
